@@ -49,6 +49,7 @@ def contracts():
     from contracts import X_ctor
     cs += [c for c in C03.contracts() if c.label == 'core.Pipe.glomit']
     cs += common.shared(X_ctor, ['core.Pipe.__init__', 'core.Let.__init__', 'core.Spec.__init__'])
+    cs += common.shared(X_ctor, ['core.Vars.__init__'])
     cs += common.shared(C08, ['core.arg_val', 'core._ArgValuator.mode'])
     cs += common.shared(C03, ['core._has_callable_glomit'])
     return cs
